@@ -326,6 +326,54 @@ def random_histories(run, n, nreq, seed, genkw=None, pols=None, restarts=0.03, p
         return pool.map(_history, tasks, chunksize=max(1, n // (4 * common.NCPU)))
 
 
+def alias_identifier_traces(quick, prefix="alias"):
+    """Requests that address text which is NOT the identifier of any object although a lenient store would read it as one
+    ('01', ' 1', '1.0', '+1', '1e0', '1 '): every operation that takes an identifier, sent by the owner of object 1/2.  The
+    specification knows no such object (Item Not Found, nothing changes); whatever the engine does instead is judged by the
+    clauses of the calling check (frame, exactness, access, lifecycle)."""
+    sym = {"otype": "SymmetricKey", "attrs": [{"name": "Cryptographic Algorithm", "v": "AES"}, {"name": "Cryptographic Length", "v": 128},
+                                              {"name": "Cryptographic Usage Mask", "v": ["ENCRYPT", "DECRYPT"]},
+                                              {"name": "Name", "idx": 0, "v": "n1"}, {"name": "Object Group", "idx": 0, "v": "og1"}]}
+    forms = ["0%d", " %d", "%d.0", "+%d", "%de0", "%d "]
+    traces = []
+    drv = D.EngineDriver(intern=new_interner())
+    try:
+        drv.request(D.one("Create", sym))
+        drv.request(D.one("Create", sym))
+        drv.request(D.one("Activate", {"uid": 2}))
+        snap = drv.db + ".alias"
+        drv.snapshot(snap)
+        k = 0
+        for f in forms:
+            for u in (1, 2):
+                a = f % u
+                cells = [((1, 2), "Get", {"uid": a}), ((1, 2), "GetAttributes", {"uid": a, "names": []}), ((1, 2), "GetAttributeList", {"uid": a}),
+                         ((1, 2), "Activate", {"uid": a}), ((1, 2), "Revoke", {"uid": a, "code": "KEY_COMPROMISE"}), ((1, 2), "Destroy", {"uid": a}),
+                         ((1, 2), "ModifyAttribute", {"uid": a, "attr": {"name": "Name", "idx": 0, "v": "renamed"}}),
+                         ((1, 2), "DeleteAttribute", {"uid": a, "name": "Object Group", "idx": 0}),
+                         ((2, 0), "SetAttribute", {"uid": a, "new": {"name": "Sensitive", "v": True}}),
+                         ((2, 0), "ModifyAttribute", {"uid": a, "cur": {"name": "Name", "v": "n1"}, "new": {"name": "Name", "v": "renamed"}}),
+                         ((2, 0), "DeleteAttribute", {"uid": a, "cur": {"name": "Name", "v": "n1"}, "ref": None}),
+                         ((1, 2), "Encrypt", {"uid": a, "cp": {"alg": "AES", "mode": "CBC", "pad": "PKCS5"}, "data": "00" * 16, "iv": "00" * 16}),
+                         ((1, 2), "DeriveKey", {"otype": "SymmetricKey", "uids": [a], "method": "HMAC", "dp": {"cp": {"hash": "SHA_256"}, "data": "0011"},
+                                                "attrs": sym["attrs"][:3]}),
+                         ((1, 2), "Get", {"uid": 1, "wrap": {"kuid": a, "mode": "NIST_KEY_WRAP"}})]
+                if quick:
+                    cells = cells[::2] if (u + forms.index(f)) % 2 else cells[1::2]
+                for ver, op, p in cells:
+                    k += 1
+                    drv.load_snapshot(snap)
+                    rec = T.Recorder(drv, "%s%d" % (prefix, k))
+                    rec.request(D.one(op, dict(p), ver=ver))
+                    rec.close()
+                    tr = rec.trace()
+                    tr["raw"] = rec.raw
+                    traces.append(tr)
+    finally:
+        drv.close()
+    return traces
+
+
 # ---------------------------------------------------------------- verdicts
 
 def clause_property(c):
